@@ -283,6 +283,21 @@ inline Val extract(JsonVariantConst v, const WalkOpts& o, size_t& budget, int de
     }
     if (!ob["\x01no such key\x02"].isNull() || !v["\x01no such key\x02"].isNull())
       walkFail(o, "walk: lookup of an absent key is not null");
+    if (n <= 8) {
+      // ... and through a key that is itself a value of another document (any bytes, NUL included)
+      const std::string& k0 = r.o[n - 1].first;
+      const Val& want0 = r.o[size_t(r.memberIndex(k0))].second;
+      ArduinoJson::JsonDocument kd;
+      kd.set(JsonString(k0.data(), k0.size(), JsonString::Copied));
+      JsonVariantConst kv = kd.as<JsonVariantConst>();
+      if (!kd.overflowed()) {
+        JsonVariantConst a1 = ob[kv], a2 = v[kv];
+        for (JsonVariantConst got : {a1, a2})
+          if (got.isNull() != (want0.k == K::Null) || got.size() != want0.size() || got.is<const char*>() != (want0.k == K::Str) ||
+              got.is<bool>() != (want0.k == K::Bool))
+            walkFail(o, "walk: obj[variant holding " + quote(k0) + "] differs from iteration");
+      }
+    }
   }
   return r;
 }
